@@ -1123,12 +1123,26 @@ func ruleDesugar(c *Ctx) {
 				return
 			}
 			fn := fnName(short(pk.PkgPath), d)
+			defs := c.localDefs(d.Body)
 			for _, call := range c.allCallsDeepTo(d.Body, "parser/lexer.Reserved") {
 				n++
-				if fn == "types.Check" {
-					c.R.OK(fn, "DS-8 reserved words consulted for variable references", call.Pos(), "the checker's identifier case")
+				// what is being tested: the name of an identifier node (a variable reference), inside the type checker?
+				isVarRef := false
+				if len(call.Args) == 1 {
+					a := unparen(call.Args[0])
+					if id, ok := a.(*ast.Ident); ok {
+						if def, ok := defs[c.objOf(id)]; ok {
+							a = unparen(def)
+						}
+					}
+					if se, ok := a.(*ast.SelectorExpr); ok && se.Sel.Name == "Name" && typeStr(c.typeOf(se.X)) == "*parser/ast.IdentExpr" {
+						isVarRef = true
+					}
+				}
+				if short(pk.PkgPath) == "types" && isVarRef {
+					c.R.OK(fn, "DS-8 reserved words consulted for variable references", call.Pos(), "the checker tests the name of an identifier node")
 				} else {
-					c.R.Bad(fn, "DS-8 reserved words consulted outside the checker's identifier case", call.Pos(), "the reserved-word table is consulted in %s: names such as string / match are reserved as variables but are ordinary function names, so a form that is checked here (e.g. the method name of o.f(args)) is rejected while the explicit call f(o, args) it stands for is accepted", fn)
+					c.R.Bad(fn, "DS-8 reserved words consulted outside the checker's identifier case", call.Pos(), "the reserved-word table is consulted in %s for something other than the name of an identifier node in the type checker: names such as string / match are reserved as variables but are ordinary function names, so a form that is checked here (e.g. the method name of o.f(args)) is rejected while the explicit call f(o, args) it stands for is accepted", fn)
 				}
 			}
 		})
@@ -1279,7 +1293,7 @@ func ruleDesugar(c *Ctx) {
 		g := c.buildCFG(ce.Body)
 		var loop *ast.RangeStmt
 		inspectNoLit(ce.Body, func(x ast.Node) bool {
-			if r, ok := x.(*ast.RangeStmt); ok && strings.HasSuffix(src(r.X), ".trans") {
+			if r, ok := x.(*ast.RangeStmt); ok && typeStr(c.typeOf(r.X)) == "[]trans.Translate" {
 				loop = r
 			}
 			return true
@@ -1287,7 +1301,7 @@ func ruleDesugar(c *Ctx) {
 		chk := c.callsTo(ce.Body, "types.Check")
 		var comp *ast.CallExpr
 		for _, call := range c.calls(ce.Body) {
-			if se, ok := call.Fun.(*ast.SelectorExpr); ok && se.Sel.Name == "compiler" && c.calleeObj(call) == nil {
+			if se, ok := call.Fun.(*ast.SelectorExpr); ok && typeStr(c.typeOf(se)) == "compiler.Compiler" && c.calleeObj(call) == nil {
 				comp = call
 			}
 		}
